@@ -327,6 +327,7 @@ func main() {
 	switch os.Args[1] {
 	case "dump":
 		w := loadWorld()
+		w.setPropFromEnv()
 		for _, name := range os.Args[2:] {
 			fn := w.funcs[name]
 			if fn == nil {
@@ -348,6 +349,7 @@ func main() {
 		fmt.Println(strings.Join(names, "\n"))
 	case "verify":
 		w := loadWorld()
+		w.setPropFromEnv()
 		bad := 0
 		for _, name := range os.Args[2:] {
 			fn := w.funcs[name]
@@ -375,20 +377,7 @@ func main() {
 	case "standalone":
 		// mqvc standalone <func> <obligation>: print the self-contained query
 		w := loadWorld()
-		if p := os.Getenv("MQVC_PROP"); p != "" {
-			w.prop = p
-			if spec := propSpecs[p]; spec != nil {
-				w.secrets, w.secretRecv = spec.Secrets, spec.SecretRecv
-				w.taintRoots = map[string]bool{}
-				for _, r := range spec.Roots {
-					w.taintRoots[r] = true
-				}
-				w.forceInline = map[string]bool{}
-				for _, f := range spec.ForceInline {
-					w.forceInline[f] = true
-				}
-			}
-		}
+		w.setPropFromEnv()
 		vc := w.buildVC(w.funcs[os.Args[2]])
 		for _, ob := range vc.obligations() {
 			if ob.Name == os.Args[3] {
@@ -429,4 +418,43 @@ func objApart(a string, ta types.Type, b string, tb types.Type) string {
 		alts = append(alts, eq(a, b))
 	}
 	return or(alts...)
+}
+
+// setPropFromEnv selects the clauses of one property (MQVC_PROP) for the debugging commands.
+func (w *World) setPropFromEnv() {
+	p := os.Getenv("MQVC_PROP")
+	if p == "" {
+		return
+	}
+	w.prop = p
+	w.applyOnlyFor()
+	if spec := propSpecs[p]; spec != nil {
+		w.secrets, w.secretRecv = spec.Secrets, spec.SecretRecv
+		w.taintRoots = map[string]bool{}
+		for _, r := range spec.Roots {
+			w.taintRoots[r] = true
+		}
+		w.forceInline = map[string]bool{}
+		for _, f := range spec.ForceInline {
+			w.forceInline[f] = true
+		}
+	}
+}
+
+// applyOnlyFor: a contract marked only-for some properties is an ordinary inlined function elsewhere.
+func (w *World) applyOnlyFor() {
+	for _, c := range w.contracts {
+		if len(c.OnlyFor) == 0 {
+			continue
+		}
+		on := false
+		for _, p := range c.OnlyFor {
+			if p == w.prop {
+				on = true
+			}
+		}
+		if !on {
+			c.Inline = true
+		}
+	}
 }
